@@ -6,40 +6,44 @@ from vlib import *
 # ----------------------------------------------------------------------------------------
 # shared: arithmetic correspondence (C11; reused by C12 for the size policy)
 # ----------------------------------------------------------------------------------------
-def run_arith(ctx, cases, seeds, inputs_file=None):
-    """run real bumping.rs (debug and release builds) and compare with extracted gen + spec.
+def run_arith(ctx, cases, seeds, inputs_file=None, binname='arith'):
+    """run the real functions (debug and release builds) and compare with extracted gen + spec.
     returns (summary, mismatch-lines)"""
-    total = {'cases': 0, 'spec_some': 0, 'spec_none': 0, 'dummy_range': 0,
-             'impl_vs_spec': 0, 'gen_vs_impl': 0, 'gen_vs_spec': 0, 'by_fn_hints': {}}
+    total = {'cases': 0, 'impl_vs_spec': 0, 'gen_vs_impl': 0, 'gen_vs_spec': 0}
     mism = []
     samples = []
     for release in (False, True):
-        exe = ctx.cargo_build('arith', release=release)
+        exe = ctx.cargo_build(binname, release=release)
         if exe is None:
             return None, []
         for sd in seeds:
-            trace = os.path.join(CACHE, 'arith_%s_%d.txt' % ('rel' if release else 'dbg', sd))
+            trace = os.path.join(CACHE, '%s_%s_%d.txt' % (binname, 'rel' if release else 'dbg', sd))
             if inputs_file:
                 cmd = '%s --inputs %s > %s' % (exe, inputs_file, trace)
             else:
                 cmd = '%s --seed %d --cases %d > %s' % (exe, sd, cases, trace)
             rc, out, dt = sh(cmd, timeout=1200)
             if rc != 0:
-                ctx.problems.append(('harness', 'arith harness failed rc=%d: %s' % (rc, out[-500:])))
+                ctx.problems.append(('harness', '%s harness failed rc=%d: %s' % (binname, rc, out[-500:])))
                 continue
-            rc, out, dt2 = sh('%s arith < %s' % (DRV, trace), timeout=1800)
+            rc, out, dt2 = sh('%s %s < %s' % (DRV, binname, trace), timeout=1800)
             if rc != 0:
-                ctx.problems.append(('driver', 'drv arith failed: ' + out[-500:]))
+                ctx.problems.append(('driver', 'drv %s failed: %s' % (binname, out[-500:])))
                 continue
             for l in out.split('\n'):
-                if l.startswith('MISMATCH'):
+                if l.startswith('MISMATCH') or l.startswith('PROPFAIL'):
                     mism.append(('release' if release else 'debug', l))
                 elif l.startswith('SUMMARY'):
                     s = json.loads(l[len('SUMMARY '):])
-                    for k in ('cases', 'spec_some', 'spec_none', 'dummy_range', 'impl_vs_spec', 'gen_vs_impl', 'gen_vs_spec'):
-                        total[k] += s[k]
-                    for k, v in s['by_fn_hints'].items():
-                        total['by_fn_hints'][k] = total['by_fn_hints'].get(k, 0) + v
+                    for k, v in s.items():
+                        if isinstance(v, dict):
+                            d = total.setdefault(k, {})
+                            for kk, vv in v.items():
+                                d[kk] = d.get(kk, 0) + vv
+                        elif k == 'header_layouts':
+                            total[k] = max(total.get(k, 0), v)
+                        else:
+                            total[k] = total.get(k, 0) + v
             if not samples:
                 with open(trace) as f:
                     samples = [next(f).strip() for _ in range(4)]
@@ -52,8 +56,15 @@ def run_arith(ctx, cases, seeds, inputs_file=None):
     return total, mism
 
 
+def parse_propfail(line):
+    m = re.match(r'PROPFAIL input=(.*?) (?:why=(\S+)|spec=(\S+) gen=(\S+) impl=(\S+))\s*$', line)
+    if not m:
+        return None
+    return {'input': m.group(1), 'why': m.group(2), 'spec': m.group(3), 'gen': m.group(4), 'impl': m.group(5)}
+
+
 def parse_mismatch(line):
-    m = re.match(r'MISMATCH kind=(\S+) input=(.*?) spec=(\S+) gen=(\S+) impl=(\S+)$', line)
+    m = re.match(r'MISMATCH kind=(\S+) input=(.*?) spec=(\S+) gen=(\S+) impl=(\S+)\s*$', line)
     if not m:
         return None
     return {'kind': m.group(1), 'input': m.group(2), 'spec': m.group(3), 'gen': m.group(4), 'impl': m.group(5)}
@@ -79,28 +90,30 @@ def check_C11(ctx):
         summary, mism = run_arith(ctx, cases, seeds)
         broken = bool(ctx.problems)
         if summary is not None:
-            if (broken or summary['gen_vs_impl'] or summary['gen_vs_spec']) and not summary['impl_vs_spec']:
+            if (broken or summary['gen_vs_impl'] or summary['gen_vs_spec'] or summary['impl_vs_spec']) and not summary.get('prop_fail'):
                 # failing-input search: more seeds, more cases
                 ctx.say('proof or tie broken: searching for a concrete failing input')
                 s2, m2 = run_arith(ctx, 1_000_000, [ctx.seed + 7, ctx.seed + 77, ctx.seed + 777])
                 if s2:
                     mism += m2
-                    for k in ('cases', 'impl_vs_spec', 'gen_vs_impl', 'gen_vs_spec'):
-                        summary[k] += s2[k]
+                    for k in ('cases', 'impl_vs_spec', 'gen_vs_impl', 'gen_vs_spec', 'prop_fail'):
+                        summary[k] = summary.get(k, 0) + s2.get(k, 0)
             for mode, l in mism:
-                pm = parse_mismatch(l)
-                if not pm:
+                pf = parse_propfail(l)
+                if not pf:
                     continue
-                if pm['kind'] == 'impl_vs_spec':
-                    fnname = {'U': 'bump_up', 'D': 'bump_down', 'PU': 'bump_prepare_up', 'PD': 'bump_prepare_down'}[pm['input'].split()[0]]
-                    ctx.violations.append({
-                        'kind': 'arith-input', 'function': fnname, 'build': mode,
-                        'input_fields': 'fn start end min_align size align align_is_const size_is_const size_is_multiple_of_align -> impl result',
-                        'input': pm['input'], 'expected_spec': pm['spec'], 'observed_impl': pm['impl'],
-                        'generated_model': pm['gen'],
-                        'signature': 'arith:%s' % fnname,
-                        'how_to_replay': 'tools/vcheck C11 --replay <this file>',
-                    })
+                fnname = {'U': 'bump_up', 'D': 'bump_down', 'PU': 'bump_prepare_up', 'PD': 'bump_prepare_down'}[pf['input'].split()[0]]
+                ctx.violations.append({
+                    'kind': 'arith-input', 'function': fnname, 'build': mode,
+                    'input_fields': 'fn start end min_align size align align_is_const size_is_const size_is_multiple_of_align -> impl result',
+                    'input': pf['input'], 'expected_spec': pf['spec'], 'observed_impl': pf['impl'],
+                    'generated_model': pf['gen'],
+                    'signature': 'arith:%s' % fnname,
+                    'how_to_replay': 'tools/vcheck C11 --replay <this file>',
+                })
+            if summary['impl_vs_spec'] and not summary.get('prop_fail'):
+                ctx.problems.append(('tie', 'the compiled code differs from the specification on %d inputs in a way the property allows (e.g. a larger but valid new position); the refinement theorem no longer describes the code; first: %s'
+                                     % (summary['impl_vs_spec'], next((l for _, l in mism if 'impl_vs_spec' in l), ''))))
             if summary['gen_vs_impl'] and not summary['impl_vs_spec']:
                 ctx.problems.append(('tie', 'generated model and compiled code disagree on %d inputs (translator or extraction infidelity); first: %s'
                                      % (summary['gen_vs_impl'], next((l for _, l in mism if 'gen_vs_impl' in l), ''))))
@@ -113,7 +126,7 @@ def check_C11(ctx):
                 'samples': summary['samples'],
                 'traces_validated_against_impl': summary['cases'],
                 'input_distribution': {k: summary[k] for k in ('spec_some', 'spec_none', 'dummy_range', 'by_fn_hints')},
-                'mismatches': {k: summary[k] for k in ('impl_vs_spec', 'gen_vs_impl', 'gen_vs_spec')},
+                'mismatches': {k: summary.get(k, 0) for k in ('prop_fail', 'impl_vs_spec', 'gen_vs_impl', 'gen_vs_spec')},
             })
     return ctx.finish(level='proof', obligations=nthm, discharged=nclosed,
                       checker_cmd='make -C coq Properties/C11.vo (coqc 8.16.1; Print Assumptions under each theorem)' + ('; coqchk -o' if ctx.tier == 'thorough' else ''),
@@ -130,7 +143,7 @@ def replay_C11(ctx, path):
         f.write(' '.join(r['input'].split()[:9]) + '\n')
     ctx.build_driver()
     s, mism = run_arith(ctx, 0, [0], inputs_file=inp)
-    bad = [l for _, l in mism if 'impl_vs_spec' in l]
+    bad = [l for _, l in mism if l.startswith('PROPFAIL')]
     for mode, l in mism:
         print(mode, l)
     if bad:
@@ -139,3 +152,74 @@ def replay_C11(ctx, path):
         return 1
     print('replayed input agrees with the specification on the current tree')
     return 0
+
+
+# ----------------------------------------------------------------------------------------
+def check_C12(ctx):
+    target = 'Properties/C12'
+    ctx.regen()
+    ok, out = ctx.coq_build(target)
+    nthm, nclosed = (0, 0)
+    if ok:
+        nthm, nclosed = ctx.check_assumptions(target, out)
+    else:
+        nthm = len(ctx.pinned(target)[0])
+    ctx.grep_forbidden()
+    if ctx.tier == 'thorough' and ok:
+        ctx.coqchk(target)
+    drv_ok = ctx.build_driver()
+    cases = 100_000 if ctx.tier == 'quick' else 1_500_000
+    seeds = [ctx.seed] if ctx.tier == 'quick' else [ctx.seed, ctx.seed + 1000003]
+    if drv_ok:
+        summary, mism = run_arith(ctx, cases, seeds, binname='sizecfg')
+        if summary is not None:
+            broken = bool(ctx.problems)
+            if (broken or summary['gen_vs_impl'] or summary['gen_vs_spec'] or summary['impl_vs_spec']) and not summary.get('prop_fail'):
+                ctx.say('proof or tie broken: searching for a concrete failing input')
+                s2, m2 = run_arith(ctx, 700_000, [ctx.seed + 7, ctx.seed + 77, ctx.seed + 777], binname='sizecfg')
+                if s2:
+                    mism += m2
+                    for k in ('cases', 'impl_vs_spec', 'gen_vs_impl', 'gen_vs_spec', 'prop_fail'):
+                        summary[k] = summary.get(k, 0) + s2.get(k, 0)
+            for mode, l in mism:
+                pf = parse_propfail(l)
+                if not pf:
+                    continue
+                tag = pf['input'].split()[0]
+                what = {'H': 'calc_hint_from_capacity', 'Z': 'calc_size_from_hint', 'A': 'align_size',
+                        'F': 'fresh chunk (size policy + real bump functions on the new chunk range)'}[tag]
+                ctx.violations.append({
+                    'kind': 'sizecfg-input', 'function': what, 'build': mode, 'what_fails': pf['why'],
+                    'input_fields': {'H': 'H up hs ha size align -> result', 'Z': 'Z up hs ha hint -> result',
+                                     'A': 'A up hs ha size -> result',
+                                     'F': 'F up hs ha min_align size align min_chunk_size prev_chunk_size extra_granted base -> S hint n usable fits(1/0)'}[tag],
+                    'input': pf['input'],
+                    'signature': 'sizecfg:%s:%s' % (tag, pf['why']),
+                })
+            if summary['impl_vs_spec'] and not summary.get('prop_fail'):
+                ctx.problems.append(('tie', 'the compiled size policy differs from the specified policy on %d inputs without violating the property on any explored input; the refinement theorems no longer describe the code; first: %s'
+                                     % (summary['impl_vs_spec'], next((l for _, l in mism if 'impl_vs_spec' in l), ''))))
+            if summary['gen_vs_impl'] and not summary['impl_vs_spec']:
+                ctx.problems.append(('tie', 'generated model and compiled code disagree on %d inputs; first: %s'
+                                     % (summary['gen_vs_impl'], next((l for _, l in mism if 'gen_vs_impl' in l), ''))))
+            if summary.get('model_nofit'):
+                ctx.problems.append(('model', 'the specification itself produced a fresh chunk that does not fit (contradicts the theorem: stale build?)'))
+            ctx.cov.update({
+                'evaluations': summary['cases'],
+                'distinct_nontrivial': summary.get('distinct_lines', 0),
+                'rule': 'random header layouts derived from allocator value layouts (size 0..256, align 1..256), layouts with sizes around powers of two / page multiples / the isize limit, alignments up to 2^63 (2^29 for the fresh-chunk cases), hints up to 2^64-1; kinds: H=calc_hint_from_capacity, Z=calc_size_from_hint, A=align_size, F=whole fresh-chunk path (hint, max with 2*prev and minimum chunk size, size, granted = size+extra, usable = align_size, then the REAL bump_up/bump_down/prepare on the fresh range for all three LayoutProps classes); debug and release builds; distinct = distinct trace lines',
+                'samples': summary['samples'],
+                'traces_validated_against_impl': summary['cases'],
+                'input_distribution': {'by_kind': summary.get('by_kind'), 'header_layouts': summary.get('header_layouts')},
+                'mismatches': {k: summary.get(k, 0) for k in ('prop_fail', 'impl_vs_spec', 'gen_vs_impl', 'gen_vs_spec')},
+            })
+    return ctx.finish(level='proof', obligations=nthm, discharged=nclosed,
+                      checker_cmd='make -C coq Properties/C12.vo (coqc 8.16.1; Print Assumptions under each theorem)' + ('; coqchk -o' if ctx.tier == 'thorough' else ''),
+                      extra_assumptions=['usize is 64 bit', 'header layout satisfies hdr_ok (ha power of two, 16 <= ha <= 2^32, ha | hs, 32 <= hs <= 2^40): true for every ChunkHeader<A>',
+                                         'the composition in src/chunk/size.rs and NonDummyChunk::new (max with MINIMUM_CHUNK_SIZE and 2*previous, header placement) is hand-modelled; it is tied to the real arena by the arena correspondence (C01/C10 checks)'])
+
+
+def replay_C12(ctx, path):
+    r = json.load(open(path))
+    print(json.dumps(r, indent=1)[:3000])
+    return check_C12(ctx)
